@@ -262,8 +262,14 @@ def rule_undodual(ctx):
         init_ok = len(init) == 1 and norm(init[0]) == f'len({uv})'
         slices = [s for s in walk_own(bin_) if isinstance(s, ast.Assign) and isinstance(s.value, ast.Subscript)
                   and norm(s.value.value) == uv]
-        sl_ok = len(slices) == 1 and isinstance(slices[0].value.slice, ast.Slice) and norm(slices[0].value.slice.lower) == cur \
-            and norm(slices[0].value.slice.upper) in (f'{cur} + {width}', f'{width} + {cur}')
+        sl_ok = len(slices) == 1 and isinstance(slices[0].value.slice, ast.Slice) and norm(slices[0].value.slice.lower) == cur
+        if sl_ok:
+            # upper bound = cursor + entry width, compared as linear forms (the width may be a name, a sum, a constant)
+            try:
+                sl_ok = slices[0].value.slice.upper is not None and q.lin_eq(
+                    q.lin_sub(q.linear(ctx, bak, slices[0].value.slice.upper), q.linear(ctx, bak, decs[0].value)), {cur: 1, '': 0})
+            except q.NotLinear:
+                sl_ok = False
         puts = calls_canon(ctx, bak, bin_, 'self.utxo_cache.__setitem__')
         put_ok = sl_ok and len(puts) == 1 and norm(puts[0].args[1]) == norm(slices[0].targets[0])
         order_ok = sl_ok and decs[0].lineno < slices[0].lineno
